@@ -1,6 +1,7 @@
 import Heathcliff.Proofs.GenRns8
 import Heathcliff.Proofs.GenRns11
 import Heathcliff.Proofs.GenRns14
+import Heathcliff.Proofs.GenRns16
 import Heathcliff.Proofs.C01EW
 
 /-!
@@ -159,5 +160,35 @@ theorem grw_mt_crt : GenR.fastbconv_m_tilde (flatP nv_c0) (flatP #[#[9, 9, 9, 9]
       = some (flatP nv_p1) := by decide +kernel
   rw [hok] at hval
   simpa [Except.toOption] using hval
+
+/-! ### `RNSBase::decompose` / `decompose_array` on the base {97, 113}: 5000 = (53, 28), 10960 = (96, 112) -/
+
+theorem grw_decompose : GenR.rnsbase_decompose [5000, 0] nv_base.size nv_base.base.toList = .ok [53, 28] := by
+  obtain ⟨out, hok, hlen, hv⟩ := gr_rnsbase_decompose_residues nv_base_wf [5000, 0] rfl (by decide) (Or.inl (by decide))
+  rw [hok]
+  congr 1
+  have h2 : out.length = 2 := hlen
+  apply gr_ext_getD 0 _ _ h2
+  intro j hj
+  rw [h2] at hj
+  rw [hv j hj]
+  interval_cases j <;> rfl
+
+theorem grw_decompose_refuses : GenR.rnsbase_decompose [5000, 0, 0] nv_base.size nv_base.base.toList = .error .refused :=
+  gr_rnsbase_decompose_refuses nv_base [5000, 0, 0] (by decide)
+
+theorem grw_decompose_array : GenR.rnsbase_decompose_array [5000, 0, 10960, 0] nv_base.size nv_base.base.toList = .ok [53, 96, 28, 112] := by
+  obtain ⟨out, hok, hlen, hv⟩ := gr_rnsbase_decompose_array_residues nv_base_wf [[5000, 0], [10960, 0]] 2 (by decide) rfl (by decide) (by decide) (by decide)
+  have hok' : GenR.rnsbase_decompose_array [5000, 0, 10960, 0] nv_base.size nv_base.base.toList = .ok out := hok
+  rw [hok']
+  congr 1
+  have h4 : out.length = 4 := hlen
+  apply gr_ext_getD 0 _ _ h4
+  intro p hp
+  rw [h4] at hp
+  have h2 : nv_base.size = 2 := rfl
+  have e : p = (p / 2) * 2 + p % 2 := by omega
+  rw [e, hv (p / 2) (p % 2) (by omega) (by omega)]
+  interval_cases p <;> rfl
 
 end HC
